@@ -152,18 +152,18 @@ pub fn generate(seed: u64, thorough: bool) -> Gen {
         // the 4-object page tree is sampled in the quick tier
         add(pagetree(4), 150, 30, &mut rng, &mut docs);
     }
-    add(tree(k, false, !thorough), lim, 0, &mut rng, &mut docs);
+    add(tree(k, false, !thorough), if thorough { lim } else { 7_000 }, 0, &mut rng, &mut docs);
     add(tree(k, true, false), if thorough { lim } else { 400 }, 0, &mut rng, &mut docs);
     if !thorough {
         add(tree(4, false, false), 150, 0, &mut rng, &mut docs);
     }
     add(tree_numbers(), 10, joint, &mut rng, &mut docs);
     add(outlines(k), if thorough { 20_000 } else { 200 }, joint, &mut rng, &mut docs);
-    add(fonts(k), if thorough { lim } else { 1_300 }, 0, &mut rng, &mut docs);
+    add(fonts(k), if thorough { lim } else { 1_300 }, if thorough { 2_000 } else { 100 }, &mut rng, &mut docs);
     add(font_numbers(), 10, joint, &mut rng, &mut docs);
     add(font_widths(), 100, 0, &mut rng, &mut docs);
     add(encoding_differences(), 10, joint / 2, &mut rng, &mut docs);
-    add(colorspaces(k), if thorough { lim } else { 1_500 }, 0, &mut rng, &mut docs);
+    add(colorspaces(k), if thorough { lim } else { 5_500 }, if thorough { 2_000 } else { 100 }, &mut rng, &mut docs);
     add(colorspace_numbers(), 10, 10, &mut rng, &mut docs);
     for n in [1, 4, 5, 6, 7, 19, 20, 21] {
         docs.push(colorspace_depth(n));
@@ -171,7 +171,7 @@ pub fn generate(seed: u64, thorough: bool) -> Gen {
     add(stream_lengths(), 3_000, 0, &mut rng, &mut docs);
     add(ref_chains(), if thorough { 80_000 } else { 600 }, 0, &mut rng, &mut docs);
     docs.extend(functions());
-    add(annotations(k), if thorough { lim } else { 1_200 }, 0, &mut rng, &mut docs);
+    add(annotations(k), if thorough { lim } else { 1_200 }, if thorough { 2_000 } else { 100 }, &mut rng, &mut docs);
     for kind in ["nametree", "numbertree", "fonts"] {
         for levels in [3, 12, 40, 70] {
             docs.push(ladder(kind, levels));
